@@ -126,18 +126,36 @@ func classifyRace(st string) (class, detail string, lib bool) {
 	}
 	var parts []string
 	for _, a := range accs {
-		top := ""
+		top, firstOther, fingerprint := "", "", false
 		for _, f := range a.frames {
+			if strings.HasPrefix(f, "verif.local/sim/gen.") {
+				fingerprint = true
+			}
 			if strings.HasPrefix(f, "verif.local/sim") || strings.HasPrefix(f, "runtime.") || strings.HasPrefix(f, libPrefix+"verifsim") {
 				continue
 			}
-			top = f
-			break
+			if strings.HasPrefix(f, libPrefix) {
+				if top == "" {
+					top = f
+				}
+				continue
+			}
+			if firstOther == "" {
+				firstOther = f
+			}
 		}
-		if top != "" {
+		switch {
+		case fingerprint:
+			// the O2 fingerprint walker reading the shared value on a task's goroutine
+			parts = append(parts, a.kind+"@harness-fingerprint")
+		case top != "":
 			lib = true
 			parts = append(parts, a.kind+"@"+cleanFunc(top))
-		} else {
+		case firstOther != "":
+			// an access inside a dependency or the standard library with no library frame above it
+			lib = true
+			parts = append(parts, a.kind+"@"+cleanFunc(firstOther))
+		default:
 			parts = append(parts, a.kind+"@harness")
 		}
 	}
